@@ -147,7 +147,7 @@ Enabled(S) ==
     \cup {Act("Drop", h, "-", "-", "-", "c1", "-", "-") : h \in {x \in Handles : S.hs[x].st = "open"}}
     \cup {Act("PutDDoc", h, "-", "-", "-", "c1", "-", "-") : h \in {x \in Handles : S.hs[x].st = "open"}}
     \cup {Act("StartFeed", h, "-", "-", "-", c, f, fk) : h \in {x \in Handles : S.hs[x].st \in {"open", "closed"}},
-              c \in Colls, f \in {x \in FeedIds : S.fd[x].st = "none"}, fk \in {"live", "dump", "dumpnb", "multi", "bucket"}}
+              c \in Colls, f \in {x \in FeedIds : S.fd[x].st = "none"}, fk \in {"live", "dump", "dumpnb", "multi", "bucket", "ckpt"}}
     \cup {Act("StopFeed", "h1", "-", "-", "-", "-", f, "-") : f \in {x \in FeedIds : S.fd[x].st = "running"}}
 
 =============================================================================
